@@ -268,6 +268,15 @@ def Trunc(x):
     return V(_int(ex, st, [unV(x)], {}, None))
 
 
+def Floor(x):
+    """floor of a real as an integer"""
+    import math
+    x = unV(x)
+    if is_sym(x):
+        return V(z3.ToInt(to_real(x)) if not z3.is_int(x) else x)
+    return V(int(math.floor(x)))
+
+
 def Uf(name, *args, sort="real"):
     """application of a named uninterpreted (ghost / library) function"""
     ex, _ = _cur()
